@@ -318,10 +318,17 @@ def window(rep, c, sfx):
 
 # ------------------------------------------------------------------ GUARD
 
+CUR_LETS = {}   # immutable bool locals of the function being examined (set by the callers of cmp_facts)
+
+
 def cmp_facts(cond, truth):
     """Set of facts 'start<end' established by cond having the given truth value (self fields only)."""
     cond = peel(cond)
     k = kind(cond)
+    if k == "Path" and cond.get("res") == "local" and cond.get("ty") == "bool" and cond["id"] in CUR_LETS:
+        init = CUR_LETS[cond["id"]][0]
+        if init is not None:
+            return cmp_facts(init, truth)     # `let has_remaining = self.start < self.end;` tested later
     if k == "Binary" and cond["op"] == "&&" and truth:
         return cmp_facts(cond["l"], True) | cmp_facts(cond["r"], True)
     if k == "Binary" and cond["op"] == "||" and not truth:
@@ -412,6 +419,9 @@ def guard(rep, c, sfx):
         return some
 
     def guarded(ctx, n):
+        global CUR_LETS
+        modes_ = hirq.binding_modes(ctx.fn) if hasattr(ctx, "fn") else {}
+        CUR_LETS = {k_: v_ for k_, v_ in hirq.lets(ctx.fn["body"]).items() if not modes_.get(k_)} if hasattr(ctx, "fn") else {}
         for g in ctx.guards(n):
             if g[0] in ("if", "not", "guard"):
                 if "nonempty" in cmp_facts(g[1], g[2]):
@@ -801,6 +811,18 @@ def lenstep(rep, c, sfx):
                         continue
                     in_loop = any(kind(p) == "Loop" for (p, k, i) in ctx.ancestors(x))
                     amount = hirq.lit_value(x["r"]) if kind(x) == "AssignOp" else None
+                    if kind(x) == "Assign":
+                        # `self.end = last` with `let last = self.end - 1`: the same constant step, spelled as a value
+                        rhs = peel(x["r"])
+                        blets = hirq.lets(b["body"])
+                        hops = 0
+                        while kind(rhs) == "Path" and rhs.get("res") == "local" and rhs["id"] in blets and hops < 3:
+                            rhs = peel(blets[rhs["id"]][0])
+                            hops += 1
+                        if kind(rhs) == "Binary" and rhs["op"] in ("+", "-") and isinstance(hirq.lit_value(rhs["r"]), int):
+                            lpl = hirq.place(rhs["l"])
+                            if lpl and lpl[0] == "self" and lpl[2][:1] == pl[2][:1]:
+                                amount = hirq.lit_value(rhs["r"])
                     key = "%s::%s:%s" % (short, st["name"], pl[2][0])
                     r.instance(key, where(x), "%s %s%s" % (x.get("op", "="), amount, " in loop" if in_loop else ""))
                     if in_loop or amount is None:
